@@ -123,6 +123,7 @@ def sift_case(draw):
     # storage of the signal: float64, integers (ADC counts), or - with absolute mask amplitudes only, because a ratio
     # amplitude is a multiple of X.std(), which numpy evaluates in the storage precision - float32
     sig['dtype'] = draw(st.sampled_from(['f8', 'f8', 'f8', 'i8', 'i2', 'f4']))
+    sig['layout'] = draw(st.sampled_from(['C', 'C', 'C', 'strided', 'readonly']))
     return {'sig': sig, 'freqs': freqs, 'mode': draw(st.sampled_from(['abs', 'ratio_sig', 'ratio_imf'])), 'amp': amp,
             'step': draw(st.sampled_from([1.5, 2, 2.0, 3, 4.0, 1, 1.0])), 'nphases': draw(st.integers(1, 8)),
             'nproc': draw(st.integers(2, 8)), 'max_imfs': draw(st.integers(1, 6)), 'opts': opts,
@@ -137,6 +138,7 @@ def oracle_sift(case, rec):
     xt = gens.sig_of(sigd)              # as stored (handed to mask_sift)
     x = xt.astype(float)                # the same values as float64 (the specification works on these)
     rec.cls('dtype=' + sigd.get('dtype', 'f8'))
+    rec.cls('layout=' + sigd.get('layout', 'C'))
     amp = case['amp']
     opts = case['opts']
     kw = dict(mask_amp=amp.copy() if isinstance(amp, np.ndarray) else amp, mask_amp_mode=case['mode'],
@@ -152,8 +154,8 @@ def oracle_sift(case, rec):
     fa = list(freqs) if isinstance(freqs, list) else freqs
     try:
         with Trace() as tr:
-            got_n = np.asarray(emd.sift.mask_sift(xt.copy(), mask_freqs=fa, nprocesses=case['nproc'], **kw))
-        got, mf = emd.sift.mask_sift(xt.copy(), mask_freqs=list(fa) if isinstance(fa, list) else fa, nprocesses=1,
+            got_n = np.asarray(emd.sift.mask_sift(gens.arg(xt), mask_freqs=fa, nprocesses=case['nproc'], **kw))
+        got, mf = emd.sift.mask_sift(gens.arg(xt), mask_freqs=list(fa) if isinstance(fa, list) else fa, nprocesses=1,
                                      ret_mask_freq=True, **kw)
     except emd.support.EMDSiftCovergeError:
         raise Discard('convergence error')
@@ -222,7 +224,7 @@ def oracle_sift(case, rec):
         raise Violation('C07/mask_sift/number-of-imfs', 'got %d expected %d' % (K, stop_expected))
     # returned frequencies reproduce the output when fed back explicitly
     try:
-        again = np.asarray(emd.sift.mask_sift(xt.copy(), mask_freqs=list(mf), nprocesses=1, **kw))
+        again = np.asarray(emd.sift.mask_sift(gens.arg(xt), mask_freqs=list(mf), nprocesses=1, **kw))
     except Exception as e:
         raise Violation('C07/mask_sift/feedback-raises/' + type(e).__name__, repr(e))
     if again.shape != got.shape or np.abs(again - got).max() / scale > 1e-12:
@@ -234,7 +236,7 @@ def oracle_sift(case, rec):
         elif isinstance(r, list):
             r[:] = [128.0 * v for v in r]
     try:
-        got2, mf2 = emd.sift.mask_sift(xt.copy(), mask_freqs=list(fa) if isinstance(fa, list) else fa, nprocesses=1,
+        got2, mf2 = emd.sift.mask_sift(gens.arg(xt), mask_freqs=list(fa) if isinstance(fa, list) else fa, nprocesses=1,
                                        ret_mask_freq=True, **kw)
     except Exception as e:
         raise Violation('C07/mask_sift/repeat-raises/' + type(e).__name__, repr(e))
